@@ -1,5 +1,8 @@
 // search.go: failing-input search legs of hx_c17 (active only with -search).
 //
+// The legs that run in the NORMAL tiers (member names with equal FNV-32a, Unicode / byte-pattern classes of names) are in
+// legs3.go.
+//
 // The normal tiers keep rings of at most 60 members and look every key up after (almost) every change. The legs:
 //
 //	scale    a ring grown to 4200 members (84 000 points: past 2^15 and 2^16 points) and shrunk again, every key looked
